@@ -24,11 +24,13 @@ def accArgT3 : Option Int → Val
   | some a => .int a
 
 /-- the meaning of the domain predicate: a 32-bit tick count `T ≥ 1`, every per-tick rate within
-`±(2^31−1)` and every per-tick acceleration within `±2^31` -/
+the signed 32-bit range `[−2^31, 2^31−1]` (so an end rate of exactly `−2^31` is in the domain) and every
+per-tick acceleration within `±2^31` -/
 theorem C02_valid_iff (rate accel jerk T : Int) :
     ValidT3 rate accel jerk T ↔
       (1 ≤ T ∧ T ≤ 2 ^ 32 ∧
-       (∀ k : Nat, 1 ≤ k → (k : Int) ≤ T → |t3Rate rate accel jerk k| ≤ 2 ^ 31 - 1) ∧
+       (∀ k : Nat, 1 ≤ k → (k : Int) ≤ T →
+          -2 ^ 31 ≤ t3Rate rate accel jerk k ∧ t3Rate rate accel jerk k ≤ 2 ^ 31 - 1) ∧
        (∀ k : Nat, (k : Int) ≤ T → |t3Accel rate accel jerk k| ≤ 2 ^ 31)) :=
   ⟨fun ⟨a, b, c, d⟩ => ⟨a, b, c, d⟩, fun ⟨a, b, c, d⟩ => ⟨a, b, c, d⟩⟩
 
@@ -122,6 +124,15 @@ example : ValidT3 100 (-7) 5 3 := by
     have : k = 0 ∨ k = 1 ∨ k = 2 ∨ k = 3 := by omega
     rcases this with rfl | rfl | rfl | rfl <;> decide
 example : t3Spec 1073741824 0 0 2 none = (1, 0) := by decide
+/-- the domain is the asymmetric signed range: a move ending exactly at rate `−2^31` is valid -/
+example : ValidT3 (-2147483613) (-10) 0 4 ∧ t3Rate (-2147483613) (-10) 0 4 = -2147483648 := by
+  refine ⟨⟨by norm_num, by norm_num, ?_, ?_⟩, by decide⟩
+  · intro k h1 h2
+    have : k = 1 ∨ k = 2 ∨ k = 3 ∨ k = 4 := by omega
+    rcases this with rfl | rfl | rfl | rfl <;> decide
+  · intro k h2
+    have : k = 0 ∨ k = 1 ∨ k = 2 ∨ k = 3 ∨ k = 4 := by omega
+    rcases this with rfl | rfl | rfl | rfl | rfl <;> decide
 
 /-- non-vacuity of the rounding hypothesis for the arithmetic that is actually modelled and executed:
 the concrete IEEE/mpmath round-to-nearest instance `Rounding.ieee` (run by the driver and compared with
